@@ -4,7 +4,7 @@ Only statements of the property (and non-vacuity examples) live here; helper lem
 Lemmas / Accept / Ops / Laws.  The state machine is `BV.C10.step` (Model.lean): one public mempool
 call or one block connect / disconnect notification handled by netsync.
 -/
-import BV.C10.Minable
+import BV.C10.Sound
 import BV.Generated.C10
 namespace BV.C10
 open Spec Lemmas
@@ -163,6 +163,14 @@ theorem replacement_evicts_descendants (W : TxAbs → Prop) (U : Universe W) (c 
     ∀ m ∈ s.txs, (∃ e ∈ txConflicts s t, e.id = m.id) → ∀ u ∈ s.txs, (∃ x ∈ u.ins, OutputOf x m) →
       ∃ e ∈ txConflicts s t, e.id = u.id :=
   txConflicts_closed g.ok (g.ranked U) t
+
+/-- … and nothing else: every evicted transaction is a pooled spender of an input of the replacement or a
+pooled descendant (`Reach`) of one — so the evicted set is exactly the conflicts and their descendants -/
+theorem replacement_evicts_only_conflicts_and_descendants (pol : Policy) (maturity mtp0 : Nat) (ops : List Op)
+    (t : TxAbs) :
+    let s := (run pol (State.init maturity mtp0) ops).1.pool
+    ∀ e ∈ txConflicts s t, ∃ x ∈ t.ins, ∃ c, s.spender x = some c ∧ (e = c ∨ Reach s c e) :=
+  txConflicts_sound (run_ok pol ops _ poolOk_empty) t
 
 /-! ### OrphanBounds -/
 
